@@ -13,7 +13,7 @@ from .reference import Reference, declared_edges, reachable
 from .sim import BarrierScheduler, FifoScheduler, ScriptedScheduler, make_scheduler
 
 # construct classes currently claimed (extended as defects are repaired); see DESIGN 4.2 / 7
-CLASSES_ALL = ['plain', 'rec', 'rec_nested', 'switch', 'switch_unk', 'switch_shared', 'oneof', 'oneof_nested', 'mix_main', 'switch_oneof', 'hub']
+CLASSES_ALL = ['plain', 'rec', 'rec_nested', 'switch', 'switch_unk', 'switch_shared', 'oneof', 'oneof_nested', 'mix_main', 'switch_oneof', 'hub', 'nest3']
 
 
 def h64(*parts) -> int:
@@ -448,7 +448,7 @@ class C06(Prop):
 
 class C09(Prop):
     id = 'C09'
-    classes = ['switch', 'switch_unk', 'switch_shared', 'mix_main', 'switch_oneof', 'hub']
+    classes = ['switch', 'switch_unk', 'switch_shared', 'mix_main', 'switch_oneof', 'hub', 'nest3']
     rule = ('programs with named/unnamed, nested, shared switches; labels derived from the input incl. labels '
             'without a case; oracle: executed bodies subset of the reference demanded set, consumer kwargs = '
             'selected case value, unknown label => error result; non-trivial = program has a switch with >= 2 '
@@ -460,7 +460,7 @@ class C09(Prop):
 
 class C10(Prop):
     id = 'C10'
-    classes = ['oneof', 'oneof_nested', 'mix_main', 'switch_oneof', 'hub']
+    classes = ['oneof', 'oneof_nested', 'mix_main', 'switch_oneof', 'hub', 'nest3']
     rule = ('programs with sibling / nested one-ofs, failures at any depth of candidate sub-pipelines, None/falsy '
             'candidates; oracle: invocation multiset vs reference (laziness, containment, winner value), candidate '
             'start order, OneOfDoesNotHaveResultError on exhaustion; non-trivial = some candidate failed before '
@@ -584,6 +584,12 @@ class C07(Prop):
 
     def judge(self, case, rec, refs, sd):
         vs = oracles.o_termination(case, rec)
+        for v in vs:
+            # a fresh chart terminates for every input (C02 is checked separately): a hang of a later run is leftover state
+            if len(rec.outcomes) > 1:
+                v.props.add('C07')
+                v.clause = 'reuse:' + v.clause
+                v.detail = f'run {len(rec.outcomes) - 1} of the history on a reused chart: ' + v.detail
         cancelled = {i for i, o in enumerate(rec.outcomes) if o[0] == 'cancelled'} if case.get('cancel') else set()
         for i, ref in enumerate(refs):
             if i >= len(rec.outcomes):
@@ -634,6 +640,11 @@ class C08(Prop):
 
     def judge(self, case, rec, refs, sd):
         vs = oracles.o_termination(case, rec)
+        for v in vs:
+            # every run terminates when it runs alone (the reference always does): a hang here is interference
+            v.props.add('C08')
+            v.clause = 'overlap:' + v.clause
+            v.detail = f'{len(refs)} overlapping runs: ' + v.detail
         cancelled = {i for i, o in enumerate(rec.outcomes) if o[0] == 'cancelled'} if case.get('cancel') else set()
         for i, ref in enumerate(refs):
             g, _ = oracles.general(case, rec, ref, i, cancelled=i in cancelled)
